@@ -82,6 +82,10 @@ class TcpConnection():
                                   "this PeerNode")
 
         self.is_connected = False
+
+        #: Under the lock: the event loop and the state machine update the
+        #: selector registration of this socket from their own threads.
+        self.lock.acquire()
         try:
             self.selector.unregister(self.sock)
             tcp_connection.debug(f"[Socket-{self.sock_id}] De-registering "\
@@ -95,6 +99,9 @@ class TcpConnection():
         except KeyError as e:
             tcp_connection.debug(f"[Socket-{self.sock_id}] There is no "\
                                  f"such Selector registered")
+
+        finally:
+            self.lock.release()
 
         self._stop_threads = True
 
@@ -124,6 +131,11 @@ class TcpConnection():
 
     def _set_selector_events_mask(self, mode: Literal["r", "w", "rw"], msg: Any = None) -> None:
         self.lock.acquire()
+
+        if not self.is_connected:
+            #: close() has de-registered the socket: nothing left to update.
+            self.lock.release()
+            return
 
         #: Data to be sent is queued here, exactly once, under the lock. It
         #: used to travel as the selector key's data, which the event loop
